@@ -121,7 +121,7 @@ theorem finish_decode_fixedSizeBinary0_false :
 key 0 while no value has been pushed: `into_array` appends the placeholder value `""`, so the finished slot reads
 the empty string while the state holds no value for it (`dec` reads null).  The witness is a reachable state: one
 `serialize_default` (what a null parent struct issues) into a fresh non-nullable `Dictionary(UInt32, Utf8)` builder.
-(Stated operationally, without `WFB`: a state invariant may or may not admit such hidden slots.) -/
+(Stated operationally, without `WFB`: a state invariant may or may not allow such hidden slots.) -/
 theorem finish_decode_dictionary_dummy_false :
     ∃ (b0 b : B) (a : Arr), newDT "$.a" (.dictionary .uint32 .utf8) false [] = .ok b0 ∧ pushDefault b0 = .ok b ∧
       finish {} b = .ok a ∧ decodeAll a ≠ (dec b).map .ok :=
